@@ -354,10 +354,11 @@ Theorem C06_request_state_not_written : request_state_written = false.
 Proof. exact Facts_ok_request_state. Qed.
 Print Assumptions C06_request_state_not_written.
 
-(* any history of SCRIPT_NAME changes, path_info_pop calls and generations on one request object: every
-   generation answers with route_url / route_path of the environ as it is at that step *)
-Theorem C06_request_generation_stateless : forall e rs target script pinfo memo steps,
-  run_req request_state_written e rs target (mkRS script pinfo memo) steps = spec_req e rs target script pinfo steps.
+(* any history of SCRIPT_NAME changes, path_info_pop calls and generations on one request object, whatever the
+   element cache [c] holds from earlier generations in the process: every generation answers with route_url /
+   route_path of the environ as it is at that step *)
+Theorem C06_request_generation_stateless : forall e rs target script pinfo memo c steps,
+  run_req request_state_written e rs target (mkRS script pinfo memo) c steps = spec_req e rs target script pinfo steps.
 Proof. exact request_generation_stateless. Qed.
 Print Assumptions C06_request_generation_stateless.
 
@@ -371,7 +372,7 @@ Print Assumptions C06_request_history_prefix.
 
 (* a quoted script name kept on the request refutes it: '/x' under '/a', SCRIPT_NAME := '/b', again *)
 Theorem C06_request_memo_refuted :
-  run_req true req_env [([114], req_pat)] [114] (mkRS [47; 97] [] None) req_steps
+  run_req true req_env [([114], req_pat)] [114] (mkRS [47; 97] [] None) [] req_steps
   <> spec_req req_env [([114], req_pat)] [114] [47; 97] [] req_steps.
 Proof. exact request_memo_refuted. Qed.
 Print Assumptions C06_request_memo_refuted.
